@@ -67,11 +67,16 @@ DeepVerdicts(r) ==
                                  <<"C11", "weighing a covenant of deeply nested loops killed the process (" \o r.status \o ")">>} ELSE {})
   \cup (IF r.status = "ok" /\ r.weight # FromInt(r.k + 1) THEN {<<"C11", "covenant weight differs from the specification">>, <<"C05", "covenant weight differs from the specification">>} ELSE {})
   \cup (IF r.status = "ok" /\ r.ms > 20000 THEN {<<"C11", "weighing a covenant took more than 20 seconds">>} ELSE {})
-AllVerdicts(r) == IF r.ev = "deep" THEN DeepVerdicts(r) ELSE Verdicts(r)
+\* deeply nested values, run in a child process.  KNOWN FINDING (not repaired): cloning / dropping a vector nested tens of thousands deep
+\* recurses once per level and exhausts the stack; tagged so that known_findings.json can list exactly this family
+DeepValVerdicts(r) ==
+    IF r.status # "ok" THEN {<<"C09", "executing a covenant that nests vectors " \o (IF r.depth >= 10000 THEN "more than 10000" ELSE "less than 10000") \o " deep killed the process", 
+                              IF r.status = "abort" /\ r.depth >= 10000 THEN "KF-deep-value-nesting" ELSE "">>} ELSE {}
+AllVerdicts(r) == IF r.ev = "deep" THEN DeepVerdicts(r) ELSE IF r.ev = "deepval" THEN DeepValVerdicts(r) ELSE Verdicts(r)
 
 Init == l = 1
 Next == /\ l <= Len(Rec)
         /\ l' = l + 1
-        /\ \A v \in AllVerdicts(Rec[l]) : PrintT(ToJson([k |-> "VERDICT", p |-> v[1], l |-> l, c |-> v[2], fam |-> Rec[l].fam]))
+        /\ \A v \in AllVerdicts(Rec[l]) : PrintT(ToJson([k |-> "VERDICT", p |-> v[1], l |-> l, c |-> v[2], kf |-> IF Len(v) >= 3 THEN v[3] ELSE "", fam |-> Rec[l].fam]))
 Post == TLCGet("stats").diameter - 1 = Len(Rec)
 =============================================================================
